@@ -188,9 +188,4 @@ def run(tier, seed, replay=None):
 
 
 if __name__ == '__main__':
-    import argparse
-    ap = argparse.ArgumentParser()
-    ap.add_argument('--tier', default=os.environ.get('VERIF_TIER', 'quick'))
-    ap.add_argument('--replay')
-    a = ap.parse_args()
-    sys.exit(run(a.tier, C.get_seed(), a.replay))
+    sys.exit(C.guarded_main(PID, run))
